@@ -110,7 +110,7 @@ def cases(draw):
         a = {"type": "circ", "cx": cx, "cy": cy, "r": t[2] * s}
         pyth = [[cx + sx * t[0] * s, cy + sy * t[1] * s] for sx in (-1, 1) for sy in (-1, 1)]
     return {"A": a, "B": b, "points": [list(p) for p in pts], "pyth": pyth,
-            "order": draw(st.integers(0, 3))}
+            "order": draw(st.integers(0, 3)), "prime": draw(st.booleans())}
 
 
 def strategy(tier):
@@ -208,6 +208,19 @@ def run_case(case, strict=False):  # pylint: disable=unused-argument,too-many-br
     for outer, inner in ((A, B), (B, A)):
         oo = build(outer, case.get("order", 0))
         io = build(inner, 3 - case.get("order", 0))
+        if case.get("prime"):
+            # history on the outer object: it has already answered for another region of the same type and id (the region's
+            # earlier geometry, before an update) that sits at its centre, and for that point
+            if outer["type"] == "rect":
+                ox1, oy1, ox2, oy2 = geom.norm_rect(outer)
+                pcx, pcy = (ox1 + ox2) / 2, (oy1 + oy2) / 2
+            else:
+                pcx, pcy = outer["cx"], outer["cy"]
+            primer = build({"type": "rect", "x1": pcx, "y1": pcy, "x2": pcx, "y2": pcy} if inner["type"] == "rect"
+                           else {"type": "circ", "cx": pcx, "cy": pcy, "r": 0.0})
+            oo.containsRegion(primer)
+            oo.containsPoint(pcx, pcy)
+            classes.add("outer_object_reused")
         rep = bool(oo.containsRegion(io))
         pair = "%s>%s" % (outer["type"], inner["type"])
         classes.add("pair:" + pair)
